@@ -313,5 +313,14 @@ def run(ctx):
         ctx.ob('C09.R3-functional-cache', s['function'], s['instance'], s['ok'], found=s['found'], expected=s['expected'],
                why='with an influencer missing from the key two workers can store different values under one key and a third reads '
                    'whichever came first')
+    # the key covers (position, depth, side, window); the value stored under it is a function of those only if nothing ELSE the leaf
+    # evaluation reads changes along a line: inside the search the board is touched only through apply/undo/toggle_turn brackets
+    # (= the C04.R4 rows for the functions of the search call graph) - a search that also registers positions makes leaf scores path dependent
+    from . import c04, c07
+    reach = ctx.facts.reachable_fns([c07.SEARCH] + [c.name for c in ctx.facts.closures_of(c07.SEARCH)])
+    import_rules(ctx, 'C09.R3-functional-cache', [c04.r4_raw_mutators],
+                 'a value cached for (position, depth, side, window) is reused by every worker: if the search itself changes state that the '
+                 'leaf evaluation reads (repetition counts, clocks) outside apply/undo, one key holds several values and the first writer wins',
+                 keep=lambda s: s['function'] in reach or 'floor' in s['instance'], floor=1)
     r4_lock_order(ctx)
     r5_selection(ctx)
